@@ -252,3 +252,35 @@ class virtual_timers:
     @staticmethod
     def pending():
         return [t for t in VirtualTimer.registry if t.is_alive()]
+
+
+# ---------------------------------------------------------------------------------------------- GEM handlers on HSMS
+def make_gem(kind="equipment", initial_control_state="EQUIPMENT_OFFLINE", initial_online="REMOTE", mode="passive", t3=0.2, **kw):
+    """Real GemEquipmentHandler / GemHostHandler over the real HsmsProtocol on a MemConnection, synchronous dispatcher.
+    Call inside `with virtual_timers():`."""
+    import secsgem.gem
+    dt = secsgem.common.DeviceType.EQUIPMENT if kind == "equipment" else secsgem.common.DeviceType.HOST
+    settings = MemHsmsSettings(connect_mode=HsmsConnectMode.PASSIVE if mode == "passive" else HsmsConnectMode.ACTIVE, device_type=dt, **kw)
+    settings.timeouts.t3 = t3
+    if kind == "equipment":
+        handler = secsgem.gem.GemEquipmentHandler(settings, initial_control_state, initial_online)
+    else:
+        handler = secsgem.gem.GemHostHandler(settings)
+    proto = handler.protocol
+    conn = proto._connection
+    proto._thread = SyncDispatcher(proto)
+    proto._send_select_req_thread = lambda: None
+    return handler, proto, conn
+
+
+def gem_to_communicating(handler, proto, conn):
+    """enable, connect, select, answer the S1F13 with COMMACK 0."""
+    handler.enable()
+    conn.connect()
+    conn.feed(frame(stype=1, system=0x0A0B0C0D, session=0xFFFF))
+    sent = [f for f in conn.frames() if f["stype"] == 0 and f["stream"] == 1 and f["function"] == 13]
+    if sent:
+        from spec import e5ref as R
+        conn.feed(frame(0, sent[-1]["system"], 1, 14, False, R.encode(("L", [("B", b"\x00"), ("L", [])]))))
+    conn.sent.clear()
+    return handler.communication_state.current.name
